@@ -81,6 +81,11 @@ def cases(tier, seed):
         M = int(rng.integers(2, 6))
         cs.append(dict(kind='verlet', qt=qt, nt='LEGENDRE' if i % 3 else 'EQUID', M=M, dtexp=float(rng.uniform(-2, 0)), tau=False,
                        coll_update=bool(rng.random() < 0.4), t0=float(rng.uniform(0, 2)), seed=int(rng.integers(0, 2**31)), _cost=M * M))
+    alphas = [0.3, 1e-1, 1e-2, 1e-3, 1e-4, 1e-6, 1e-8]
+    for i in range(60 if tier == 'quick' else 1200):
+        cs.append(dict(kind='paradiag', M=int(rng.integers(1, 6)), n=int(rng.integers(1, 5)), L=int(rng.integers(1, 13)), alpha=float(alphas[int(rng.integers(0, len(alphas)))]),
+                       ident=bool(rng.random() < 0.3), ignore_ic=bool(rng.random() < 0.5), imex=bool(rng.random() < 0.4), dtexp=float(rng.uniform(-2.5, 0)), reconf=int(rng.integers(1, 4)),
+                       seed=int(rng.integers(0, 2**31)), _cost=8))
     return cs
 
 
@@ -467,6 +472,14 @@ def run_case(case):
             run_sdc(case, r)
         elif case['kind'] == 'rk':
             run_rk(case, r)
+        elif case['kind'] == 'paradiag':
+            # diagonal/ParaDiag sweepers (QDiagonalization, QDiagonalizationIMEX): the solve prescribed by Q and G_inv, as
+            # configured at construction and after every later set_G_inv (harness and oracle shared with C15)
+            from vf.checks.C15 import run_sweep
+
+            with np.errstate(all='warn'):
+                run_sweep(case, r)
+            r.observe('family', 'paradiag')
         else:
             run_verlet(case, r)
     r.count('kind:' + case['kind'])
@@ -480,7 +493,9 @@ def finalize(agg):
         if c.get(k, 0) == 0:
             out.append(f'monitor {k} never evaluated')
     fam = agg['seen'].get('family', set())
-    for f in FAMILIES + ['verlet']:
+    if c.get('oracle:diagonalisation-sweep-solves-collocation', 0) == 0 or c.get('reconfigured_sweeps', 0) == 0:
+        out.append('ParaDiag sweepers never reached the solve oracle (or never after a reconfiguration)')
+    for f in FAMILIES + ['verlet', 'paradiag']:
         if f not in fam:
             out.append(f'sweeper family {f} never reached the node-value oracle')
     if len(agg['seen'].get('rk_class', ())) < 10:
